@@ -8,12 +8,20 @@
    marker-cache acceptance test `cache_ok` and EVERY decision procedure `mk_decide` that
    are functions of (reduced tree, marker table) — which is all the code hands them —
    every marker table, every list of cells and every generator state.  A cell of the
-   result is the dict {stored level index: record}; `lookup k cell` is cell[level k]. *)
+   result is the dict {stored level index: record}; `lookup k cell` is cell[level k].
+
+   WITH THE MARKER MODEL PLUGGED IN (audit 3, A7): Model/RunMappingMarkers.v instantiates
+   cache_ok := (Markers.create_cache ... = MOk ...) and mk_decide := a vote that reads the table only
+   through Markers.used of the parent it decides; c17_drop_named_equals_reduced_filtered compares the
+   dropping run on the FILE's table with the run on the reduced reference whose file never had the
+   entries of the removed level, under cache success of both;
+   c17_drop_equals_never_had_level_refuted shows why "under cache success" cannot be dropped. *)
 From Coq Require Import ZArith List Bool.
 From CTM Require Import Base.Sx Base.SortX Model.Tree Model.Election Model.RunMapping Proofs.ElectionP Proofs.RunMappingP.
 From CTM Require Import Proofs.TreeValidateP Proofs.TreeDropP.
 From CTM Require Import Model.RunMappingKeys Proofs.RunMappingStrictP Proofs.RunMappingKeysP Proofs.MarkersP.
 From CTM Require Model.Markers.
+From CTM Require Import Model.RunMappingMarkers Proofs.RunMappingMarkersP.
 Import ListNotations.
 Open Scope Z_scope.
 
@@ -307,7 +315,10 @@ Theorem c17_marker_key_convention :
 Proof. exact rekey_convention. Qed.
 Print Assumptions c17_marker_key_convention.
 
-(* "marker groups of removed parents are never consulted": two tables that agree at the parents
+(* "marker groups of removed parents are never consulted BY validate_marker_lookup / used" (and by
+   nothing else is claimed: create_marker_cache_from_specified_markers as a whole DOES read them -
+   its reference-membership check and its write loop iterate every key of the file, see
+   c17_drop_equals_never_had_level_refuted): two tables that agree at the parents
    of the tree u handed to the marker reconciliation - they may differ arbitrarily under keys
    that are no parents of u, which is where (b) puts the entries of removed parents - give
    every parent of u with >= 2 children the same markers: what assemble_query_data reads from
@@ -336,7 +347,12 @@ Print Assumptions c17_removed_entries_not_consulted.
 
 (* the strict drop theorem for the table AS THE FILE HOLDS IT (keyed by the names of the stored
    tree; run_mapping_named = run_mapping_model after rekey): the reference that never had the
-   level holds the same entries under the names of its own tree, i.e. rekey m of the file *)
+   level holds the same entries under the names of its own tree, i.e. rekey m of the file.
+   HONEST LABEL (audit 3, A7): run_mapping_named t cfg tb unfolds to run_mapping_model t cfg (rekey m tb),
+   so this is c17_drop_equals_reduced_strict at tb := rekey m tb - an instance, by construction; cache_ok
+   and mk_decide are still arbitrary functions of the WHOLE table.  The statement with the marker model
+   plugged in, and with the removed entries really deleted on the right-hand side, is
+   c17_drop_named_equals_reduced_filtered below. *)
 Theorem c17_drop_equals_reduced_named :
   forall (cell rng : Type) (cache_ok : tree -> Markers.table -> bool)
          (mk_decide : tree -> Markers.table -> rng -> option (nat * node) -> list node -> list cell -> list rec * rng),
@@ -363,6 +379,72 @@ Theorem c17_drop_equals_reduced_named :
     end.
 Proof. exact drop_equals_reduced_named. Qed.
 Print Assumptions c17_drop_equals_reduced_named.
+
+(* ---------------- with the marker model plugged in (Model/RunMappingMarkers.v) ---------------- *)
+
+(* what assemble_query_data reads for a parent is not only the same SET (c17_removed_entries_not_consulted)
+   but the same LIST, when the reference gene names are pairwise different (they are the identifiers of a
+   CellByGeneMatrix): the groups of the cache are sorted by reference index *)
+Theorem c17_removed_entries_same_lists :
+  forall (u : tree) (tb1 tb2 : Markers.table) (refg qg : list Markers.gene) (minm : nat)
+         (c1 c2 : Markers.cache) (p : Markers.pkey),
+    dict_ok u -> NoDup refg ->
+    (forall k, In k (all_parents u) -> Markers.tget k tb1 = Markers.tget k tb2) ->
+    Markers.create_cache tb1 refg qg (Some u) minm = Markers.MOk c1 ->
+    Markers.create_cache tb2 refg qg (Some u) minm = Markers.MOk c2 ->
+    In p (all_parents u) -> (2 <= length (children u p))%nat ->
+    Markers.used c1 refg qg p = Markers.used c2 refg qg p.
+Proof. exact used_agree. Qed.
+Print Assumptions c17_removed_entries_same_lists.
+
+(* THE RUN-LEVEL STATEMENT.  cache_ok := create_marker_cache_from_specified_markers succeeds
+   (cache_ok_real); the vote at a parent is ANY function of (reduced tree, what Markers.used reads of the
+   cache for that parent, generator, parent, children, cells) that answers with children of the parent
+   (mk_decide_real).  For a taxonomy meeting tree_ok that the validator accepts, pairwise different
+   reference gene names, a droppable level li and m = the level map of the drop:
+   IF the marker cache is created for the file's table (left run) AND for the table without the entries
+   of the removed level (right run), THEN the run with drop_level on the FILE's table tb
+   (run_mapping_real = run_mapping_named: keys are the names of the stored tree) fails exactly like, or
+   succeeds with the same generator state and the level-li-completed rows of, the run WITHOUT any
+   reduction on the reduced tree t' with the table `rekey m (filter (surviving m) tb)` - the file of a
+   reference that never had the level.
+   Content beyond c17_drop_equals_reduced_strict: the two runs are handed DIFFERENT tables; that the
+   election is the same uses c17_removed_entries_same_lists (validate_marker_lookup on the reduced tree
+   reads the table at its parents only, rekey sends the removed entries to keys that are no parents) and
+   that run_type_assignment consults the vote only at parents with >= 2 children. *)
+Theorem c17_drop_named_equals_reduced_filtered :
+  forall (cell rng : Type) (refg qg : list Markers.gene) (minm : nat)
+         (vote : tree -> option (list Markers.gene * list Markers.gene) ->
+                 rng -> option (nat * node) -> list node -> list cell -> list rec * rng),
+    (forall t1 u g p kids cs, (2 <= length kids)%nat ->
+        Forall (fun r => In (asg r) kids) (fst (vote t1 u g p kids cs))) ->
+    forall (t : tree) (li : nat) (t' : tree) (tb : Markers.table) (cells : list cell) (g : rng),
+    tree_ok t -> validate t = true -> NoDup refg ->
+    drop_level t li = TOk t' ->
+    let m := remove_nth li (seq 0 (length t)) in
+    cache_ok_real refg qg minm t' (rekey m tb) = true ->
+    cache_ok_real refg qg minm t' (rekey m (filter (surviving m) tb)) = true ->
+    match run_mapping_real_keyed cell rng refg qg minm vote t' {| cfg_drop := None; cfg_flatten := false |}
+                                 (rekey m (filter (surviving m) tb)) cells g with
+    | TErr e =>
+        run_mapping_real cell rng refg qg minm vote t {| cfg_drop := Some li; cfg_flatten := false |} tb cells g = TErr e
+    | TOk (rowsB, g') =>
+        exists rowsA,
+          run_mapping_real cell rng refg qg minm vote t {| cfg_drop := Some li; cfg_flatten := false |} tb cells g
+            = TOk (rowsA, g') /\
+          Forall2 (fun a b =>
+                     (forall k, k <> li -> lookup k a = lookup (if (k <? li)%nat then k else pred k) b) /\
+                     exists fine p,
+                       lookup (S li) a = Some fine /\ o_direct fine = true /\
+                       parent_of (nth li t []) (o_asg fine) = Some p /\
+                       lookup li a = Some (inferred p fine))
+                  rowsA rowsB
+    end.
+Proof.
+  intros cell rng refg qg minm vote Hv t li t' tb cells g Ht V Nr Hd m K1 K2.
+  exact (drop_named_equals_reduced_filtered cell rng refg qg minm vote Hv t li t' tb cells g Ht V Nr Hd K1 K2).
+Qed.
+Print Assumptions c17_drop_named_equals_reduced_filtered.
 
 (* with flatten the keys play no part: the flattened table has the root key only *)
 Theorem c17_flatten_ignores_keys :
@@ -553,3 +635,106 @@ Example c17_example_named_run :
   | TErr _ => False
   end.
 Proof. vm_compute. split; reflexivity. Qed.
+
+(* ---------------- the marker model plugged in, on the example ---------------- *)
+(* a vote that depends on what it reads of the cache: the number of reference columns of the parent
+   shifts the choice *)
+Definition ex_vote (_ : tree) (u : option (list Markers.gene * list Markers.gene)) (g : nat)
+           (p : option (nat * node)) (kids : list node) (cs : list Z) : list rec * nat :=
+  let n := match u with Some (a, _) => Z.of_nat (length a) | None => 0 end in
+  (map (fun c => {| asg := if Z.even (c + n) then hd 0 kids else last kids 0; prob := (3, 4); corr := Some (1, 2);
+                    runners := []; agg := one |}) cs, S g).
+
+Example c17_example_vote_ok :
+  forall t1 u g p kids cs, (2 <= length kids)%nat -> Forall (fun r => In (asg r) kids) (fst (ex_vote t1 u g p kids cs)).
+Proof.
+  intros t1 u g p kids cs Hk. cbn. apply Forall_forall. intros r Hr. apply in_map_iff in Hr.
+  destruct Hr as (c & <- & _). cbn [asg].
+  assert (Hne : kids <> []) by (destruct kids; [cbn in Hk; inversion Hk | discriminate]).
+  destruct (Z.even _).
+  - destruct kids; [congruence | left; reflexivity].
+  - destruct (exists_last Hne) as (l & a & ->). rewrite last_last. apply in_or_app. right. left. reflexivity.
+Qed.
+
+(* the hypotheses of c17_drop_named_equals_reduced_filtered hold of ex_tree, level 1, the file ex_file
+   (which has an entry for the removed parent (1,11)), min_markers 2: both caches are created, and the two
+   runs - different tables - give the same rows at the shared levels and the same generator state *)
+Example c17_example_real_run :
+  NoDup ex_refg /\
+  match drop_level ex_tree 1 with
+  | TOk t' =>
+      cache_ok_real ex_refg ex_qg 2 t' (rekey ex_m ex_file) = true /\
+      cache_ok_real ex_refg ex_qg 2 t' (rekey ex_m (filter (surviving ex_m) ex_file)) = true /\
+      rekey ex_m ex_file <> rekey ex_m (filter (surviving ex_m) ex_file) /\
+      match run_mapping_real_keyed Z nat ex_refg ex_qg 2 ex_vote t' {| cfg_drop := None; cfg_flatten := false |}
+                                   (rekey ex_m (filter (surviving ex_m) ex_file)) [5; 6; 7] 0%nat,
+            run_mapping_real Z nat ex_refg ex_qg 2 ex_vote ex_tree {| cfg_drop := Some 1%nat; cfg_flatten := false |}
+                             ex_file [5; 6; 7] 0%nat with
+      | TOk (rowsB, gB), TOk (rowsA, gA) =>
+          gA = gB /\
+          map (fun a => map (fun k => option_map o_asg (lookup k a)) [0; 2; 3]%nat) rowsA
+            = map (fun b => map (fun k => option_map o_asg (lookup k b)) [0; 1; 2]%nat) rowsB /\
+          map (fun a => map (fun k => option_map o_asg (lookup k a)) [0; 1; 2; 3]%nat) rowsA
+            = [[Some 1; Some 11; Some 111; Some 1111]; [Some 1; Some 10; Some 100; Some 1001]; [Some 1; Some 11; Some 111; Some 1111]]
+      | _, _ => False
+      end
+  | TErr _ => False
+  end.
+Proof.
+  split; [repeat constructor; cbn; intuition discriminate|].
+  vm_compute. repeat split; try reflexivity. discriminate.
+Qed.
+
+(* WHY "under cache success of both": the asymmetry the audit found.  ex_file_bad = ex_file with the gene 99,
+   unknown to the reference (and to the query), added to the entry of the REMOVED parent (1,11).
+   validate_marker_lookup on the reduced tree never reads that entry (it succeeds, and leaves the same entries at
+   every parent of the reduced tree), Markers.used never reads it - but create_cache as a whole fails with
+   E_NOT_IN_REF: its reference-membership check runs over every key of the file (real code:
+   create_marker_cache_from_specified_markers, 'The following marker genes are not in the reference dataset',
+   reproduced on the real run_mapping).  So the dropping run on this file fails (E_MARKERS) while the run on the
+   reduced reference with a file that never had the removed level's entries succeeds: "dropping a level = a
+   reference that never had it" is FALSE at the run level when the comparison deletes the entries.
+   NOT a finding against C17: the PROPERTY compares two runs that are handed the SAME marker file, and then both
+   fail alike - in the model (second clause: the keyed run on the reduced tree with the unfiltered table) and on
+   the real code (real run_mapping, drop_level = the middle level vs. a statistics file whose taxonomy never had
+   it, same marker file with g777 under the removed level: both raise RuntimeError 'The following marker genes
+   are not in the reference dataset'; with the removed level's entries deleted both succeed). *)
+Definition ex_file_bad : Markers.table :=
+  [(None, [5; 3]); (Some (0%nat, 1), [3; 7]); (Some (1%nat, 11), [7; 8; 99]);
+   (Some (2%nat, 100), [5]); (Some (2%nat, 111), [3; 8])].
+
+Theorem c17_drop_equals_never_had_level_refuted :
+  exists (t : tree) (li : nat) (t' : tree) (tb : Markers.table) (refg qg : list Markers.gene) (minm : nat),
+    let m := remove_nth li (seq 0 (length t)) in
+    tree_ok t /\ validate t = true /\ NoDup refg /\ drop_level t li = TOk t' /\
+    (* the removed entry is not consulted by validate_marker_lookup ... *)
+    (exists tb1 log1 tb2 log2,
+       Markers.validate_marker_lookup (rekey m tb) qg t' minm = Markers.MOk (tb1, log1) /\
+       Markers.validate_marker_lookup (rekey m (filter (surviving m) tb)) qg t' minm = Markers.MOk (tb2, log2) /\
+       log1 = log2 /\ forall k, In k (all_parents t') -> Markers.tget k tb1 = Markers.tget k tb2) /\
+    (* ... yet the cache builder fails on the file and succeeds without the removed level's entries *)
+    Markers.create_cache (rekey m tb) refg qg (Some t') minm = Markers.MErr Markers.E_NOT_IN_REF /\
+    cache_ok_real refg qg minm t' (rekey m (filter (surviving m) tb)) = true /\
+    (* the dropping run on the file fails, the run on the reference that never had the level succeeds *)
+    run_mapping_real Z nat refg qg minm ex_vote t {| cfg_drop := Some li; cfg_flatten := false |} tb [5; 6; 7] 0%nat
+      = TErr E_MARKERS /\
+    (exists rows g', run_mapping_real_keyed Z nat refg qg minm ex_vote t' {| cfg_drop := None; cfg_flatten := false |}
+                                            (rekey m (filter (surviving m) tb)) [5; 6; 7] 0%nat = TOk (rows, g')) /\
+    (* the property's own comparison (the SAME file for both runs): both fail alike *)
+    run_mapping_real_keyed Z nat refg qg minm ex_vote t' {| cfg_drop := None; cfg_flatten := false |}
+                           (rekey m tb) [5; 6; 7] 0%nat = TErr E_MARKERS.
+Proof.
+  exists ex_tree, 1%nat.
+  destruct (drop_level ex_tree 1) as [t'|e] eqn:Hd; [|vm_compute in Hd; discriminate].
+  exists t', ex_file_bad, ex_refg, ex_qg, 2%nat.
+  vm_compute in Hd. injection Hd as <-.
+  split; [apply tree_ok_b; vm_compute; reflexivity|].
+  split; [vm_compute; reflexivity|].
+  split; [repeat constructor; cbn; intuition discriminate|].
+  split; [vm_compute; reflexivity|].
+  split.
+  - vm_compute. do 4 eexists. split; [reflexivity|]. split; [reflexivity|]. split; [reflexivity|].
+    intros k Hk. repeat (destruct Hk as [<- | Hk]; [reflexivity|]). destruct Hk.
+  - vm_compute. repeat split; try reflexivity. do 2 eexists. reflexivity.
+Qed.
+Print Assumptions c17_drop_equals_never_had_level_refuted.
